@@ -1126,13 +1126,13 @@ class Sym:
                 brk = s.done[0] == "break"
                 s.trace = s.trace + ((("break" if brk else "iter"), lsite, snapshot(s, brk)),)
                 s.done = None
-                t = s.result if s.result is not None else self.fresh("loop")
+                t = s.result if (brk and s.result is not None) else (("tuple", ()) if brk else self.fresh("loop"))
                 s.result = None
                 s.loop_depth -= 1
             elif s.done is None:
                 s.trace = s.trace + (("iter", lsite, snapshot(s, False)),)
                 s.loop_depth -= 1
-                t = t if t is not None else self.fresh("loop")
+                t = self.fresh("loop")     # a `loop` has a value only through `break v`; this iteration just ended
             out.append((s, t))
         return out
 
